@@ -345,17 +345,29 @@ def _ph_rec(p):
 
 
 def run_from_string(rc):
-    """rc = {"s": str} or {"ss": [str, ...]} (one array call)"""
+    """rc = {"s": str} or {"ss": [str, ...]} (one array call).  If an array call
+    raises although it is not clear which element is to blame, every element is
+    recorded from its own scalar call instead (so that a failing spelling is
+    never blamed on its neighbours); if all elements parse on their own, the
+    array call's exception is recorded for all of them."""
     u, Angle, Phase = lib()
-    strings = rc["ss"] if "ss" in rc else [rc["s"]]
-    exc = None
-    try:
-        r = Phase.from_string(np.array(strings) if "ss" in rc else rc["s"])
-        rel = res_elems(r, np.shape(r))
-    except Exception as e:  # noqa
-        exc = exc_name(e)
-    return [{"ev": "from_string", "s": _bytes(s), "res": ({"exc": exc} if exc else rel[j])}
-            for j, s in enumerate(strings)]
+
+    def one(arg, n):
+        try:
+            r = Phase.from_string(arg)
+            return res_elems(r, np.shape(r))
+        except Exception as e:  # noqa
+            return [{"exc": exc_name(e)}] * n
+
+    if "ss" not in rc:
+        return [{"ev": "from_string", "s": _bytes(rc["s"]), "res": one(rc["s"], 1)[0]}]
+    strings = rc["ss"]
+    rel = one(np.array(strings), len(strings))
+    if "exc" in rel[0]:
+        single = [one(s, 1)[0] for s in strings]
+        if any("exc" in r for r in single):
+            rel = single
+    return [{"ev": "from_string", "s": _bytes(s), "arr": True, "res": rel[j]} for j, s in enumerate(strings)]
 
 
 def _render(p, prec, fmt):
@@ -464,7 +476,10 @@ def violation_key(ev, clauses):
     if k == "red":
         return "%s:%s:%s" % (ev["fn"], ev["form"], c)
     if k == "from_string":
-        return "from_string:%s:%s" % (string_class(bytes(ev["s"]).decode()), c)
+        # coarse class (imaginary?, decimal point present?); the exact spelling class is in the description
+        cl = string_class(bytes(ev["s"]).decode()).split("+")
+        return "from_string:%s:%s:%s" % ("imaginary" if "j" in cl else "real",
+                                         "no-dot" if "no-dot" in cl else "dot", c)
     if k in ("to_string", "roundtrip"):
         p = ev["prec"]
         pc = "default" if p < 0 else ("precision=%d" % p if p < 2 else "precision>=2")
@@ -492,7 +507,8 @@ def describe(ev, clauses):
     elif k == "red":
         s = "%s.%s of %d phases -> %s" % (ev["form"], ev["fn"], len(ev["arr"]), ev.get("idx", rs))
     elif k == "from_string":
-        s = "from_string(%r) -> %s" % (bytes(ev["s"]).decode(), rs)
+        t = bytes(ev["s"]).decode()
+        s = "from_string(%r)%s [spelling: %s] -> %s" % (t, " in an array call" if ev.get("arr") else "", string_class(t), rs)
     elif k in ("to_string", "roundtrip"):
         s = "%s(%s, precision=%s) -> %r" % (("format" if ev.get("fmt") else k), val(ev["p"]),
                                             ev["prec"] if ev["prec"] >= 0 else None,
@@ -504,12 +520,69 @@ def describe(ev, clauses):
     return s + "; violated: " + ", ".join(clauses)
 
 
-def validate(chk, recipes, name, batch=2500):
-    """Record events from the real code, let TLC judge them, file violations.
-    Returns counters."""
+def pvalidate(events, chk=None, name="trace", batch=400, procs=None, timeout=1500):
+    """trace_util.validate, but the batches are judged by several TLC processes
+    at once (one worker each; an event costs 20-60 ms of BigInt arithmetic).
+    Returns (rejected, nvalidated) like trace_util.validate."""
+    import concurrent.futures as cf
+    import json
+    import os
+    import tlc
     import trace_util
+    procs = procs or max(1, min(14, (os.cpu_count() or 4) - 2))
+    os.makedirs(trace_util.SCR, exist_ok=True)
+    # round-robin: expensive kinds of events (divisions, denormals, trig) spread evenly
+    nch = max(1, -(-len(events) // batch))
+    chunks = [(k, events[k::nch]) for k in range(nch)]
+
+    def one(job):
+        b0, part = job
+        tf = os.path.join(trace_util.SCR, "Trace_Phase_%s_%d_%d.trace.json" % (name, os.getpid(), b0))
+        vf = tf.replace(".trace.json", ".verdict.ndjson")
+        with open(tf, "w") as f:
+            json.dump(part, f)
+        if os.path.exists(vf):
+            os.remove(vf)
+        try:
+            r = tlc.run("Trace_Phase", "Trace_Phase.cfg", workers=1, timeout=timeout, heap="2g",
+                        env={"TRACE_FILE": tf, "VERDICT_FILE": vf})
+            rej, summary = [], None
+            if os.path.exists(vf):
+                for line in open(vf):
+                    line = line.strip()
+                    if not line:
+                        continue
+                    v = json.loads(line)
+                    if isinstance(v, str):
+                        v = json.loads(v)
+                    if v.get("summary"):
+                        summary = v
+                    else:
+                        rej.append((part[v["line"] - 1], v["failed"]))
+            if not r.ok or summary is None or summary["events"] != len(part):
+                raise tlc.TLCError("trace validation did not consume the whole trace (Trace_Phase %s[%d..)):\n%s"
+                                   % (name, b0, r.stdout[-3000:]))
+            return b0, len(part), r, rej
+        finally:
+            for fn in (tf, vf):
+                if os.path.exists(fn):
+                    os.remove(fn)
+
+    rejected, done = [], 0
+    with cf.ThreadPoolExecutor(max_workers=procs) as ex:
+        for b0, n, r, rej in sorted(ex.map(one, chunks), key=lambda t: t[0]):
+            if chk is not None:
+                chk.add_tlc("trace:%s[part %d: %d events]" % (name, b0, n), r)
+            rejected += rej
+            done += n
+    return rejected, done
+
+
+def validate(chk, recipes, name, batch=400):
+    """Record events from the real code, let TLC judge them, file violations.
+    Returns (events, rejected)."""
     events = record(recipes)
-    rejected, n = trace_util.validate("Trace_Phase", events, batch=batch, chk=chk, name=name)
+    rejected, n = pvalidate(events, chk=chk, name=name, batch=batch)
     chk.validated += n
     cnt = chk.notes.setdefault("events_by_kind", {})
     for ev in events:
@@ -529,10 +602,9 @@ def validate(chk, recipes, name, batch=2500):
 
 def replay_case(doc):
     """Re-execute the recipe of a violation on the real code and let TLC judge it again."""
-    import trace_util
     rc = doc["case"]["recipe"]
     events = record([rc])
-    rejected, n = trace_util.validate("Trace_Phase", events, name="replay")
+    rejected, n = pvalidate(events, name="replay", procs=1, batch=100000)
     bad = 0
     for ev, failed in rejected:
         hard, soft = split_failed(failed)
